@@ -822,11 +822,11 @@ func (r *reader) read(src []byte) {
 		case stringMode:
 			r.partial("string not terminated")
 		case runeMode:
-			r.raise("rune not terminated")
+			r.partial("rune not terminated")
 		case escMode:
-			r.raise("escaped character not terminated")
+			r.partial("escaped character not terminated")
 		case symbolMode:
-			r.raise("|symbol| not terminated")
+			r.partial("|symbol| not terminated")
 		case charMode:
 			r.pushChar(src)
 		case intMode:
@@ -839,9 +839,9 @@ func (r *reader) read(src []byte) {
 				r.code = append(r.code, ReadBitVector(token))
 			}
 		case sharpMode, sharpNumMode, mustArrayMode:
-			r.raise("sharp macro not terminated")
+			r.partial("sharp macro not terminated")
 		case blockCommentMode, blockEndMode:
-			r.raise("block comment not terminated")
+			r.partial("block comment not terminated")
 		}
 		if 0 < len(r.stack) {
 			r.partial("list not terminated")
